@@ -74,7 +74,7 @@ def literal_strategy():
 def strategy(tier):
     d1 = st.fixed_dictionaries({"dir": st.just(1), "value": value_strategy(), "ctx": st.sampled_from(["exps_op", "exps_op", "ssbs_op", "menu", "casetext", "defaulttext", "template", "template", "flag"]),
                                 "depth": st.integers(0, 4), "pos": st.integers(0, 2)})
-    d2 = st.fixed_dictionaries({"dir": st.just(2), "literal": literal_strategy(), "ctx": st.sampled_from(["arg", "lang", "menu", "msgcase"]), "indent": st.integers(0, 3)})
+    d2 = st.fixed_dictionaries({"dir": st.just(2), "literal": literal_strategy(), "ctx": st.sampled_from(["arg", "lang", "menu", "msgcase", "posmark", "posmark_ssbs"]), "indent": st.integers(0, 3)})
     return st.one_of(d1, d1, d2)
 
 
@@ -373,6 +373,8 @@ def eval_literal(case, stt):
     stt.count("literal:" + k)
     ctx = case["ctx"]
     pad = "    " * case["indent"]
+    if k in ("int", "dec") and ctx in ("posmark", "posmark_ssbs"):
+        return eval_posmark_literal(lit, text, ctx, pad, stt)
     if k in ("int", "dec") or ctx == "arg":
         src = f"def 0 {{\n{pad}TestOp({text});\n}}\n"
         getter = lambda c: find_param(c, "TestOp", 0)  # noqa
@@ -404,6 +406,47 @@ def eval_literal(case, stt):
         fails.append(Failure(f"literal_value:{k}:{lit_sig(lit, text)}", f"literal {text!r} should mean {ref!r}, compiled to {got!r}"))
     elif len(stt.samples) < 5 and k == "multi":
         stt.sample({"literal": text, "value": ref[1]})
+    return fails
+
+
+def eval_posmark_literal(lit, text, ctx, pad, stt):
+    """an INTEGER / DECIMAL literal as coordinate of a position mark (language_spec: whole tile, or '.5' = half tile)"""
+    from vf.cut import compile_ssbs
+
+    fails = []
+    k = lit["lit"]
+    stt.count("literal_in_position_mark:" + k)
+    if ctx == "posmark":
+        src = f"def 0 {{\n{pad}TestOp(Position<'m', {text}, 3.5>);\n}}\n"
+        comp, exc = call_guard(lambda: compile_text(src))
+    else:
+        src = f"def 0 {{\n{pad}TestOp(Position<'m', {text}, 3.5>);\n{pad}Return();\n}}\n"
+        comp, exc = call_guard(lambda: compile_ssbs(src))
+    if k == "int":
+        try:
+            want = (reflit.read_int(text), False)
+        except ValueError:
+            return fails
+    else:
+        neg = text.startswith("-")
+        whole, frac = text.lstrip("-").split(".", 1)
+        fr = frac.rstrip("0")
+        if fr not in ("", "5"):
+            # documented restriction: only whole and half tiles
+            if exc is None:
+                fails.append(Failure(f"posmark_literal_accepted:{ctx}", f"{text!r} is neither a whole nor a half tile but was accepted\n{src}"))
+            elif not exc[1].startswith(("SsbCompilerError:", "ParseError:")):
+                fails.append(Failure(f"posmark_literal_crash:{ctx}:{exc[0]}", f"{exc[1]}\n{src}"))
+            return fails
+        w = int(whole) if whole else 0
+        want = (-w if neg else w, fr == "5")
+    stt.mark_nontrivial([text, ctx])
+    if exc is not None:
+        fails.append(Failure(f"literal_rejected:{k}:{ctx}", f"grammatical coordinate literal {text!r} rejected: {exc[1]}\n{src}"))
+        return fails
+    got = model.norm_real_param(find_param(comp, "TestOp", 0))
+    if got != ("p", "m", want[0], 3, want[1], True):
+        fails.append(Failure(f"literal_value:{k}:{ctx}", f"coordinate literal {text!r} should mean {want!r}, compiled to {got!r}\n{src}"))
     return fails
 
 
